@@ -89,6 +89,8 @@ where
     let original_text = if newline_style != NewlineStyle::Auto && *filename != FileName::Stdin {
         Arc::new(fs::read_to_string(ensure_real_path(filename))?)
     } else {
+        // Under `Auto` the formatted text keeps the Windows line endings of its input: compare
+        // it with the input as it was, not with the `\n`-only text of the source map.
         match psess.and_then(|psess| psess.get_original_snippet(filename)) {
             Some(ori) => ori,
             None => Arc::new(fs::read_to_string(ensure_real_path(filename))?),
